@@ -338,7 +338,9 @@ def c28_judge(work, res):
                 break
         if bad and bad[-1]["clause"] == "document_copy":
             break
-    if res.get("unanswered"):
+    if res.get("unanswered") and cls == "done":
+        # (when a worker thread has panicked, that is reported above and its unanswered request is
+        # the consequence, not a second finding)
         bad.append({"clause": "keeps_running", "detail": f"request(s) {res['unanswered']} not answered within 5 s simulated"})
     return bad
 
@@ -352,7 +354,9 @@ TIERS28 = {"quick": 900, "thorough": 12000}
 
 def sched_args(seed, prop, idx):
     r = SplitMix.derive(seed, prop + "/sched", idx)
-    return ["--sched", "swarm", "--seed", str(r.seed64()), "--est-len", "60000"]
+    # the oracles wait a bounded simulated time for quiescence (3.5 s = 7 poll periods): the stall
+    # time injected into any one thread is bounded well below that
+    return ["--sched", "swarm", "--seed", str(r.seed64()), "--est-len", "60000", "--stall-budget-ms", "400"]
 
 
 def sig_of(bad):
